@@ -98,7 +98,7 @@ def runTiltChain (j : Json) : R Json := do
     | some ij, _ => do
         let out ← Ops.C07.arrOf N (← ij.getObjVal? "out")
         let wt ← N.real (← ij.getObjVal? "weight")
-        pure [("insert", match wfInsert N.nsq (data.map Prod.fst) out wt with | some a => Ops.C07.arrJ N a | none => Json.str "ValueError")]
+        pure [("insert", match wfInsert N.one N.nsq (data.map Prod.fst) out wt with | some a => Ops.C07.arrJ N a | none => Json.str "ValueError")]
     | none, _ => pure []
   match optVal j "prop" with
   | none => pure (okJ ([("fields", fieldsJ), ("steps", Json.arr steps), ("focal", floatToJson focal)] ++ ins))
